@@ -22,6 +22,8 @@ type Loader struct {
 	byPath map[string]*packages.Package
 	loaded map[string]bool
 	byName map[string]*types.Package
+	constGlobals map[*ssa.Global]*ssa.Const // package-level variables initialised with a constant and never assigned again in the loaded packages
+	nonNilGlobals map[*ssa.Global]bool      // package-level error variables initialised with errors.New(...) and never assigned again
 }
 
 func loadEnv() []string {
@@ -155,4 +157,75 @@ func (ld *Loader) pkgByNameWith(name, sym string) *types.Package {
 		walk(p.Types)
 	}
 	return res
+}
+
+// constGlobal: the constant a package-level variable of a basic type is initialised with, if no function of the
+// loaded packages other than the package initialiser ever stores to it or takes its address for anything but a load
+// (var DroppedCollectionKey = "collection").  Packages that are not loaded could still assign an exported variable:
+// that they do not is an assumption, recorded as a note by the caller.
+func (ld *Loader) constGlobal(gl *ssa.Global) (*ssa.Const, bool) {
+	if ld.constGlobals == nil {
+		ld.constGlobals = map[*ssa.Global]*ssa.Const{}
+		ld.nonNilGlobals = map[*ssa.Global]bool{}
+		errInits := map[*ssa.Global]int{}
+		inits := map[*ssa.Global][]*ssa.Const{}
+		bad := map[*ssa.Global]bool{}
+		for fn := range ssautil.AllFunctions(ld.prog) {
+			isInit := fn.Name() == "init" && fn.Parent() == nil && fn.Signature.Recv() == nil
+			for _, b := range fn.Blocks {
+				for _, ins := range b.Instrs {
+					for _, op := range ins.Operands(nil) {
+						g0, ok := (*op).(*ssa.Global)
+						if !ok {
+							continue
+						}
+						switch x := ins.(type) {
+						case *ssa.UnOp:
+							if x.Op == token.MUL {
+								continue // load
+							}
+							bad[g0] = true
+						case *ssa.Store:
+							if x.Addr == g0 && isInit && fn.Pkg == g0.Pkg {
+								if c, ok := x.Val.(*ssa.Const); ok {
+									inits[g0] = append(inits[g0], c)
+									continue
+								}
+								if c, ok := x.Val.(*ssa.Call); ok {
+									if cal := c.Call.StaticCallee(); cal != nil && (cal.String() == "errors.New" || cal.String() == "github.com/cockroachdb/errors.New" || cal.String() == "fmt.Errorf") {
+										errInits[g0]++
+										continue
+									}
+								}
+							}
+							bad[g0] = true
+						case *ssa.DebugRef:
+						default:
+							bad[g0] = true
+						}
+					}
+				}
+			}
+		}
+		for g0, cs := range inits {
+			if !bad[g0] && len(cs) == 1 {
+				if _, ok := g0.Type().(*types.Pointer).Elem().Underlying().(*types.Basic); ok {
+					ld.constGlobals[g0] = cs[0]
+				}
+			}
+		}
+		for g0, n := range errInits {
+			if !bad[g0] && n == 1 {
+				ld.nonNilGlobals[g0] = true
+			}
+		}
+	}
+	c, ok := ld.constGlobals[gl]
+	return c, ok
+}
+
+// nonNilGlobal: a package-level error variable that is initialised with errors.New(...) and never assigned again.
+func (ld *Loader) nonNilGlobal(gl *ssa.Global) bool {
+	ld.constGlobal(gl)
+	return ld.nonNilGlobals[gl]
 }
